@@ -174,6 +174,48 @@ func (w *World) genFunc(fn *ssa.Function, c *FuncContract, base string) (g *GenU
 	}
 	var binds []SV
 	for _, fv := range fn.FreeVars {
+		// a captured variable that holds a function literal assigned once in the enclosing function (a local helper
+		// such as needsEscaping): the literal itself, so that calls of it are resolved (by contract or inlined)
+		if a := resolveCapture(fv); a != nil && cellLike(a) {
+			var only ssa.Value
+			n := 0
+			for _, ref := range *a.Referrers() {
+				if s, ok := ref.(*ssa.Store); ok && s.Addr == ssa.Value(a) {
+					n++
+					only = s.Val
+				}
+			}
+			if n == 1 {
+				var target *ssa.Function
+				var mcl *ssa.MakeClosure
+				switch v := only.(type) {
+				case *ssa.MakeClosure:
+					if len(v.Bindings) == 0 {
+						target, mcl = v.Fn.(*ssa.Function), v
+					}
+				case *ssa.Function:
+					target = v
+				case *ssa.ChangeType:
+					if f2, ok := v.X.(*ssa.Function); ok {
+						target = f2
+					}
+				}
+				if target != nil {
+					sv := &Scalar{T: e.funcID(target), Ty: a.Type().(*types.Pointer).Elem()}
+					if mcl != nil {
+						closures[mcl] = nil
+						closureOf[sv] = mcl
+					} else {
+						staticFuncOf[sv] = target
+					}
+					st.cells[a] = sv
+					pv := &PtrV{Ty: fv.Type(), LV: &LVal{Alloc: a}}
+					binds = append(binds, pv)
+					fr0.regs[fv] = pv
+					continue
+				}
+			}
+		}
 		// standalone verification of a closure: captured variables are heap cells with unknown contents
 		pv := e.freshSV(fv.Type(), fv.Name(), tTrue, true)
 		e.saneInput(st, fv.Type(), pv, tTrue)
